@@ -516,6 +516,8 @@ func (n *c07Node) kidsUsedBefore() bool {
 func TestC07Context(t *testing.T) { rapid.Check(t, propC07) }
 
 func TestRegressC07(t *testing.T) {
+	c07SyncThroughAnyDerivedLogger(t)
+	c07FieldsSurviveLevelChangesAtDerivation(t)
 	// observer context must not alias between siblings (capacity-capped append)
 	oc, logs := observer.New(zapcore.DebugLevel)
 	base := zap.New(oc).With(zap.Int("a", 1), zap.Int("b", 2), zap.Int("c", 3))
